@@ -37,9 +37,17 @@ def build(ctx):
     return exe, vlib.bin_path("proto_runner"), None
 
 
+def model_line(l):
+    """The protocol (and its model) is per CALL: a register line marked S / A (one operation object reused for the whole
+    sequence) has the same expected outcome as the line with a fresh object per call."""
+    if l.startswith("R S ") or l.startswith("R A "):
+        return "R " + l[2].lower() + l[3:]
+    return l
+
+
 def run_cases(ctx, model_exe, impl_exe, lines):
     impl = vlib.run_sharded(lambda p: [impl_exe, p], lines, nshards=4, workdir=ctx.work, tag="impl")
-    model = vlib.run_sharded(lambda p: [model_exe, p], lines, nshards=vlib.NCPU, workdir=ctx.work, tag="model")
+    model = vlib.run_sharded(lambda p: [model_exe, p], [model_line(l) for l in lines], nshards=vlib.NCPU, workdir=ctx.work, tag="model")
     return impl, model
 
 
@@ -92,6 +100,11 @@ def reg_cases(rng, maxlen, full_size_product_upto):
                             rot += 1
                         for sz in sizes:
                             lines.append(reg_line(rng, ent, sz, seq, errs, pends))
+                            if L >= 2 and (L <= full_size_product_upto or rot % 2 == 0):
+                                # the same history through ONE reused operation object (seed C05-6 cached the reset
+                                # value in the object and let closures edit it in place)
+                                l2 = lines[-1]
+                                lines.append("R " + l2[2].upper() + l2[3:])
     return lines
 
 
@@ -233,7 +246,7 @@ def describe(line):
          "bytes_stored_through_mut_slice": e.split(":")[1], "pending_before_ready": int(e.split(":")[2])}
         for i, e in enumerate(sc.split(","))]
     if p[0] == "R":
-        d.update({"layer": "register", "entry": "blocking" if p[1] == "s" else "*_async", "size_bits": int(p[2]),
+        d.update({"layer": "register", "entry": ("blocking" if p[1] in "sS" else "*_async") + (" (one reused operation object)" if p[1] in "SA" else ""), "size_bits": int(p[2]),
                   "address": int(p[3]), "reset_value_hex": p[4],
                   "operations": [dict({"op": {"w": "write", "z": "write_with_zero", "r": "read", "m": "modify"}[o.split(".")[0]]},
                                       **({} if o[0] == "r" else {"closure": ("xor " if o.split(".")[1] == "x" else "overwrite with ") + o.split(".")[2]}))
